@@ -26,8 +26,9 @@ ASSUMPTIONS = [
     "method state line ids, live UOD instances, running engine commands, number of UOD callbacks, the run log items, "
     "error state",
     "offered => accepted is NOT asserted (stale Watch/Alarm registration items stay cancellable/forcible)",
-    "a forced Watch counts only if its interrupt is registered at request time; Watch rules are asserted only outside "
-    "Alarm/Macro bodies (re-invocation resets the node)",
+    "a forced Watch counts only if its interrupt is registered at request time and is not aborted by the end of its "
+    "enclosing Block; a forced Wait counts only if a live handler is executing it; Watch and Wait rules are asserted only "
+    "outside Alarm/Macro bodies (re-invocation resets the node, stale handlers of the C02 findings walk the lines twice)",
     "threshold-waiting instructions are not rendered in the run log, so 'forced threshold' cannot be requested "
     "through a run-log item id and is not exercised",
 ]
@@ -36,7 +37,7 @@ REQUIRED = {"requests": 2000, "not_offered_requests": 800, "offered_accepted": 1
 
 
 def plan(tier, seed):
-    n = 128 if tier == "quick" else 600
+    n = 128 if tier == "quick" else 2000
     shards = 16 if tier == "quick" else 50
     return [{"seed": seed * 1000003 + i, "n": max(1, n // shards), "max_depth": 3 if tier == "quick" else 4,
              "p_off": 0.6 if tier == "quick" else 1.0, "p_not": 0.12 if tier == "quick" else 0.25}
@@ -279,6 +280,10 @@ def check_case(case, res: Result):
                                          f"{descr} accepted, but the Watch was not activated within 2 interpreter ticks"))
                     else:
                         res.count("unjudged_force_fewer_than_2_running_ticks")
+            elif kind == "force" and isinstance(node, p.InterpreterCommandNode) and node.instruction_name == "Wait" \
+                    and in_rep:
+                # inside Alarm/Macro bodies a line can be walked by a stale second handler (C02 findings); not judged
+                res.count("unjudged_force_wait_in_repeatable_scope")
             elif kind == "force" and isinstance(node, p.InterpreterCommandNode) and node.instruction_name == "Wait" \
                     and not _being_waited_on(rig, node, newer_instance):
                 # stale item: the interrupt handler that was executing this Wait has been aborted (enclosing Block ended,
